@@ -17,6 +17,26 @@ pub struct TryJoinAll<F: TryFuture> {
 
 impl<F: TryFuture> Unpin for TryJoinAll<F> {}
 
+impl<F: TryFuture> TryJoinAll<F> {
+    /// Drops every output written so far and forgets the buffer.
+    /// `failed` is the slot whose future resolved to an error (vacated, but never written).
+    fn release(&mut self, failed: Option<usize>) {
+        let mut output = core::mem::replace(&mut self.output, Vec::new().into_boxed_slice());
+        for i in 0..output.len() {
+            if Some(i) != failed && self.queue.tasks.get(i).is_none() {
+                // SAFETY: slot `i` was vacated by its future resolving to `Ok`, so `output[i]` has been written
+                unsafe { output[i].assume_init_drop() }
+            }
+        }
+    }
+}
+
+impl<F: TryFuture> Drop for TryJoinAll<F> {
+    fn drop(&mut self) {
+        self.release(None);
+    }
+}
+
 /// Creates a future which represents a collection of the outputs of the futures
 /// given.
 ///
@@ -73,9 +93,13 @@ impl<F: TryFuture> Future for TryJoinAll<F> {
         loop {
             match self.as_mut().queue.poll_inner(cx) {
                 Poll::Ready(Some((i, Ok(t)))) => {
-                    self.output[i].write(t);
+                    // the buffer is gone once an error has been returned
+                    if i < self.output.len() {
+                        self.output[i].write(t);
+                    }
                 }
-                Poll::Ready(Some((_, Err(e)))) => {
+                Poll::Ready(Some((i, Err(e)))) => {
+                    self.release(Some(i));
                     break Poll::Ready(Err(e));
                 }
                 Poll::Ready(None) => {
